@@ -28,10 +28,39 @@ def _vec_close(a, b):
 
 
 def check(case, ctx):
-    fails = _check(case, ctx)
     cut = case.get("cut")
     W = np.array(case["W"], dtype=float)
     n = len(W)
+    if cut is not None and cut % 2 == 1:
+        # history: the routines have served a network of this size in another storage type before (0/1 support as int64 / bool);
+        # work space kept between calls must not carry that type over to the length matrix judged below
+        S = (W != 0)
+        for X in (S.astype(np.int64), S):
+            for f in (bct.betweenness_wei, bct.edge_betweenness_wei, bct.betweenness_bin, bct.edge_betweenness_bin):
+                ctx.call(f, X.copy())
+        ctx.label("history:integer-storage-first")
+    fails = _check(case, ctx)
+    if not fails and cut is not None and n >= 2:
+        # history: what the caller still holds. Results are kept, the routines then serve another network of the same size, and the
+        # kept arrays are compared with deep copies taken when they were returned (a routine handing out its work space passes every
+        # call-then-compare check)
+        import copy as _copy
+        X = gen.layout(W.copy(), case.get("order"))
+        held = []
+        for f in (bct.betweenness_wei, bct.edge_betweenness_wei) + ((bct.betweenness_bin, bct.edge_betweenness_bin) if case["kind"] == "bin" else ()):
+            o = ctx.call(f, X)
+            if o.ok:
+                held.append((f.__name__, o.value, _copy.deepcopy(o.value)))
+        other = np.array(W.T[::-1, ::-1])        # another network of the same size and kind
+        for f in (bct.betweenness_wei, bct.edge_betweenness_wei) + ((bct.betweenness_bin, bct.edge_betweenness_bin) if case["kind"] == "bin" else ()):
+            ctx.call(f, other.copy())
+        for name, now, then in held:
+            a = now if isinstance(now, tuple) else (now,)
+            b = then if isinstance(then, tuple) else (then,)
+            if any(not np.array_equal(np.asarray(x), np.asarray(y), equal_nan=True) for x, y in zip(a, b)):
+                fails.append(Failure("%s:result-held-by-caller-changed-by-a-later-call" % name,
+                                     "arrays returned earlier differ from the copy taken when they were returned, after calls on another %d-node network" % n, case))
+                break
     if not fails and cut is not None and n > cut:
         # history: the SAME array object, edited in place (one node cut off), handed in again
         X = gen.layout(W.copy(), case.get("order"))
